@@ -19,7 +19,7 @@ CHECKS = {
    note='Same trusted base as C01. Active is shown transient on every run (R02.f); if that stops holding its rows lose their exemption.'),
  'C03': dict(
    technique='timer-arming rules on the extracted reaction table with interval partition of the hold time (H = 0 / H > 0), symbolic check of the negotiated values (min, /k), AST shape rule for BGPTimer',
-   text='Static rule discharge: keepalive period = negotiated hold / k (k >= 3) and hold = min(configured, proposed) on every accepting path; keepalive expiry sends KEEPALIVE and re-arms iff H > 0; KEEPALIVE/UPDATE restart the hold timer; no timer is ever armed with H = 0; hold expiry sends NOTIFICATION (4,0) and closes; OPEN arms the 240 s timer; BGPTimer.reset/cancel have the semantics the rest relies on. Emission times, "at that moment" and same-instant orderings are not decided. Added: at wire level every delivered KEEPALIVE/UPDATE in Established (tolerated malformed UPDATE included) restarts the hold timer. BGPTimer.reset passes the requested delay on unchanged. Reception of KEEPALIVE/UPDATE never re-arms the keepalive timer. The hold time advertised in our OPEN is the configured one.',
+   text='Static rule discharge: keepalive period = negotiated hold / k (k >= 3) and hold = min(configured, proposed) on every accepting path; keepalive expiry sends KEEPALIVE and re-arms iff H > 0; KEEPALIVE/UPDATE restart the hold timer; no timer is ever armed with H = 0; hold expiry sends NOTIFICATION (4,0) and closes; OPEN arms the 240 s timer; BGPTimer.reset/cancel have the semantics the rest relies on. Emission times, "at that moment" and same-instant orderings are not decided. Added: at wire level every delivered KEEPALIVE/UPDATE in Established (tolerated malformed UPDATE included) restarts the hold timer. BGPTimer.reset passes the requested delay on unchanged. Reception of KEEPALIVE/UPDATE never re-arms the keepalive timer. The hold time advertised in our OPEN is the configured one. Session states are analysed in two partitions of the negotiated hold time (0 and >= 3) with the keepalive period derived from the negotiation expression, so a test of either value decides the other; the period left by an accepted OPEN is bounded by hold/3 structurally (through / // int min max) and no continuing session path rewrites either value.',
    design='DESIGN.md section 3 C03',
    note='Same trusted base as C01; reactor.callLater / DelayedCall semantics as documented by Twisted.'),
  'C12': dict(
@@ -64,7 +64,7 @@ CHECKS = {
    note='Trusted: oracle tables in sa/rules/c09.py; the interpreter model of struct/slices in sa/prims.py.'),
  'C11': dict(
    technique='loop-progress proof by abstract interpretation: every decoder while-loop is run for one iteration on symbolic input and on each back-edge path a cursor of the loop test must be a strict suffix of its previous value (slice offset with interval lower bound >= 1); call-cycle and exception-funnel AST rules',
-   text='Static rule discharge: each of the 42 decoder while-loops makes progress on every path back to its head (so it terminates on every finite input), recursion through TLV registries passes strict sub-slices, for-loops do not grow their collection, and Update.parse funnels every decoder exception into a sub-error result. A quantitative work bound is not decided. Added: recursive decoders called in a loop receive bounded windows (no 2^k re-decoding of siblings); every call in a handler of Update.parse is total. A loop that grows its test variable must bound the growth from above. Class-level registries filled by decorators are opaque to the interpreter (never folded to their empty initialiser), so the branch that calls a registered decoder is walked.',
+   text='Static rule discharge: each of the 42 decoder while-loops makes progress on every path back to its head (so it terminates on every finite input), recursion through TLV registries passes strict sub-slices, for-loops do not grow their collection, and Update.parse funnels every decoder exception into a sub-error result. A quantitative work bound is not decided. Added: recursive decoders called in a loop receive bounded windows (no 2^k re-decoding of siblings); every call in a handler of Update.parse is total. A loop that grows its test variable must bound the growth from above. Class-level registries filled by decorators are opaque to the interpreter (never folded to their empty initialiser), so the branch that calls a registered decoder is walked. A re-raise of the caught UpdateMessageError object is accepted only while no constructor of the exception family can leave sub_error / data unset; a decoder reached through a registry is typed never-None only when every class registered there returns a value on every path.',
    design='DESIGN.md section 3 C11',
    note='Trusted: interval transfer functions of sa/prims.py; helper return values are taken from one loop iteration (their lower bounds only grow with more iterations).'),
  'C06': dict(
@@ -99,7 +99,7 @@ CHECKS = {
    note='Trusted: constant folding of yabgp/common/constants.py by sa/front.py.'),
  'C19': dict(
    technique='per-item case analysis by abstract interpretation of each RIB / version updater on a one-element update with an open table (path per present/absent/equal case, concrete counter deltas and recorded mutations), table rows for the flush, guard/dominance and who-may-write AST rules',
-   text='Static rule discharge: for the two IPv4 RIB updaters and the flowspec/VPN version updaters (both directions) every case of the per-item table moves the counter and the table exactly as the model requires, withdrawals precede announcements, both RIBs are reset on every connectionMade/connectionLost path, and the RIB is reached only by well-formed IPv4 UPDATEs under the option. By induction over items and updates this gives the history property for the dictionary model. Added: rule tables are stored/removed exactly with the version move; the family tests compare afi_safi with the representation their producer yields (4 known findings: the receive side compares the decoder\'s tuple with list literals, so received flowspec/VPNv4 versions never move). Every write to the attributes in the REST view precedes the Adj-RIB-Out / version bookkeeping. The REST helper forwards the request unfiltered to the Adj-RIB-Out update; init_rib builds two independent tables.',
+   text='Static rule discharge: for the two IPv4 RIB updaters and the flowspec/VPN version updaters (both directions) every case of the per-item table moves the counter and the table exactly as the model requires, withdrawals precede announcements, both RIBs are reset on every connectionMade/connectionLost path, and the RIB is reached only by well-formed IPv4 UPDATEs under the option. By induction over items and updates this gives the history property for the dictionary model. Added: rule tables are stored/removed exactly with the version move; the family tests compare afi_safi with the representation their producer yields (4 known findings: the receive side compares the decoder\'s tuple with list literals, so received flowspec/VPNv4 versions never move). Every write to the attributes in the REST view precedes the Adj-RIB-Out / version bookkeeping. The REST helper forwards the request unfiltered to the Adj-RIB-Out update; init_rib builds two independent tables. The version updaters are analysed with the family handed over in both sequence kinds (list and tuple).',
    design='DESIGN.md section 3 C19',
    note='Same trusted base as C01; the radix tree mirror is outside the statement.'),
  'C20': dict(
